@@ -87,7 +87,7 @@ class ClauseResult(object):
 
 
 class Clause(object):
-    def __init__(self, name, doc, cases=None, check=None, run=None, replay=None, cap_s=None, setup=None):
+    def __init__(self, name, doc, cases=None, check=None, run=None, replay=None, cap_s=None, setup=None, serial=False):
         self.name = name
         self.doc = doc
         self.cases = cases      # callable(tier, seed) -> list of cases
@@ -96,6 +96,7 @@ class Clause(object):
         self.replay = replay    # callable(case) -> Res   (defaults to check)
         self.cap_s = cap_s
         self.setup = setup      # callable(tier, seed) executed in the parent before forking
+        self.serial = serial    # cases run one after the other in this process (they start worker processes of their own)
 
 
 def _tok(o):
@@ -178,8 +179,8 @@ def run_case_clause(clause, tier, seed, jobs=NPROC):
     deadline = (t0 + clause.cap_s) if clause.cap_s else None
     from mc import par
     nshards = max(1, min(jobs * 4, len(cases)))
-    if jobs <= 1 or os.environ.get("VERIF_SERIAL"):
-        nshards = 1
+    if jobs <= 1 or nshards == 1 or clause.serial or os.environ.get("VERIF_SERIAL"):
+        nshards = 1          # a single case runs in this process (it may start worker processes of its own, which a daemonic worker could not)
         results = [_run_shard((clause.name, s, nshards, deadline)) for s in range(nshards)]
     else:
         results = par.pmap(_run_shard, [(clause.name, s, nshards, deadline) for s in range(nshards)], jobs)
